@@ -158,3 +158,1102 @@ def self_test_numeric():
     assert xpath1_number_to_string(1e21) == '1000000000000000000000' and xpath1_number_to_string(-0.0) == '0'
     assert xpath1_number_to_string(1.5) == '1.5' and xpath1_number_to_string(1e-7) == '0.0000001'
     assert xpath1_number_to_string(-math.inf) == '-Infinity'
+
+
+# ==========================================================================
+# Part 2: lexical spaces, whitespace facets, value mapping, canonical / F&O string forms
+# ==========================================================================
+#
+# Sources: XML Schema Part 2 Datatypes, 1.0 second edition (3.2, 3.3) and 1.1 (3.3, 3.4, E), and
+# XPath Functions and Operators 3.1 section 19.1.2 (casting to xs:string: the canonical form with the
+# F&O exceptions: integer-valued decimals without point, double/float E-notation thresholds, timezone
+# kept (not normalised to UTC) and written Z for a zero offset, durations normalised).
+#
+# Value mapping used here (python objects that compare by XSD value equality within one type):
+#   string family, anyURI, untypedAtomic : str (after the whiteSpace facet)
+#   boolean : bool        decimal and integer family : Fraction / int
+#   double : float        float : float rounded to binary32 (struct 'f'), overflow -> INF
+#   duration family : ('D', months, seconds as Fraction)
+#   date/time family : ('T', type, year, month, day, hour, minute, second as Fraction, tz minutes or None)
+#   hexBinary / base64Binary : bytes       QName : ('Q', prefix or '', local)
+#
+# `ver` is the XSD version, '1.0' or '1.1'.  Differences modelled: year 0000 (1.1 only), '+INF' (1.1 only),
+# xs:dateTimeStamp (1.1 only).  Where XSD / F&O leave things open, `parse` raises NoVerdict:
+#   years with more than 4 digits (implementation-defined range, FODT0001 allowed), seconds = 60,
+#   29 February in years <= 0 (year numbering of BCE leap years differs between 1.0 and 1.1),
+#   more than 6 fractional second digits, anyURI beyond the clearly valid / invalid classes,
+#   Name / NCName / NMTOKEN characters on which XML 1.0 4th and 5th edition disagree.
+
+XSD_WS = ' \t\n\r'
+
+
+class LexError(ValueError):
+    """the string is not in the lexical space (or, with .bounds, outside the value space) of the type"""
+
+    def __init__(self, msg, bounds=False):
+        super().__init__(msg)
+        self.bounds = bounds
+
+
+class NoVerdict(Exception):
+    """the specifications leave the case open / implementation-defined"""
+
+
+def ws_replace(s: str) -> str:
+    return ''.join(' ' if c in '\t\n\r' else c for c in s)
+
+
+def ws_collapse(s: str) -> str:
+    out, pending, started = [], False, False
+    for c in s:
+        if c in XSD_WS:
+            pending = started
+        else:
+            if pending:
+                out.append(' ')
+                pending = False
+            out.append(c)
+            started = True
+    return ''.join(out)
+
+
+_DIGITS = '0123456789'
+
+
+def _all_digits(s: str) -> bool:
+    return s != '' and all(c in _DIGITS for c in s)
+
+
+def _int_of(s: str) -> int:
+    n = 0
+    for c in s:
+        n = n * 10 + _DIGITS.index(c)
+    return n
+
+
+# -- numerics ---------------------------------------------------------------
+
+def _split_sign(s: str):
+    if s[:1] in ('+', '-'):
+        return s[0], s[1:]
+    return '', s
+
+
+def _parse_decimal_body(body: str):
+    """digits [ '.' digits* ] | '.' digits+  -> Fraction ; raises LexError"""
+    if body.count('.') > 1:
+        raise LexError('decimal')
+    ip, dot, fp = body.partition('.')
+    if not (all(c in _DIGITS for c in ip) and all(c in _DIGITS for c in fp)):
+        raise LexError('decimal')
+    if ip == '' and fp == '':
+        raise LexError('decimal')
+    return Fraction(_int_of(ip + fp) if (ip + fp) else 0, 10 ** len(fp))
+
+
+def parse_decimal(s: str, ver='1.0') -> Fraction:
+    sign, body = _split_sign(s)
+    v = _parse_decimal_body(body)
+    return -v if sign == '-' else v
+
+
+_INT_BOUNDS = {
+    'integer': (None, None), 'nonPositiveInteger': (None, 0), 'negativeInteger': (None, -1),
+    'long': (-2 ** 63, 2 ** 63 - 1), 'int': (-2 ** 31, 2 ** 31 - 1), 'short': (-2 ** 15, 2 ** 15 - 1),
+    'byte': (-2 ** 7, 2 ** 7 - 1), 'nonNegativeInteger': (0, None), 'positiveInteger': (1, None),
+    'unsignedLong': (0, 2 ** 64 - 1), 'unsignedInt': (0, 2 ** 32 - 1), 'unsignedShort': (0, 2 ** 16 - 1),
+    'unsignedByte': (0, 2 ** 8 - 1),
+}
+INTEGER_TYPES = tuple(_INT_BOUNDS)
+
+
+def int_bounds(t: str):
+    return _INT_BOUNDS[t]
+
+
+def in_int_bounds(t: str, n: int) -> bool:
+    lo, hi = _INT_BOUNDS[t]
+    return (lo is None or n >= lo) and (hi is None or n <= hi)
+
+
+def make_int_parser(t: str):
+    def parse(s: str, ver='1.0') -> int:
+        sign, body = _split_sign(s)
+        if not _all_digits(body):
+            raise LexError(t)
+        n = _int_of(body)
+        n = -n if sign == '-' else n
+        if not in_int_bounds(t, n):
+            raise LexError(t + ' bounds', bounds=True)
+        return n
+    return parse
+
+
+def to_float32(x: float) -> float:
+    import struct
+    if math.isnan(x) or math.isinf(x):
+        return x
+    try:
+        return struct.unpack('f', struct.pack('f', x))[0]
+    except OverflowError:
+        return math.inf if x > 0 else -math.inf
+
+
+def _parse_double(s: str, ver: str) -> float:
+    if s == 'NaN':
+        return math.nan
+    if s in ('INF', '-INF'):
+        return math.inf if s == 'INF' else -math.inf
+    if s == '+INF':
+        if ver == '1.1':
+            return math.inf
+        raise LexError('+INF is not in the XSD 1.0 lexical space')
+    sign, body = _split_sign(s)
+    mant, e, exp = body.partition('e') if 'e' in body else body.partition('E')
+    if e and exp == '':
+        raise LexError('double')
+    m = _parse_decimal_body(mant)
+    x = 0
+    if e:
+        es, eb = _split_sign(exp)
+        if not _all_digits(eb):
+            raise LexError('double')
+        x = -_int_of(eb) if es == '-' else _int_of(eb)
+    # exact value -> nearest double; python float() of a decimal literal is correctly rounded
+    if m == 0:
+        v = 0.0
+    elif x > 400:
+        v = math.inf
+    elif x < -800:
+        v = 0.0
+    else:
+        fr = m * Fraction(10) ** x
+        try:
+            v = fr.numerator / fr.denominator      # int / int true division is correctly rounded
+        except OverflowError:
+            v = math.inf
+    return -v if sign == '-' else v
+
+
+def parse_double(s: str, ver='1.0') -> float:
+    return _parse_double(s, ver)
+
+
+def parse_float(s: str, ver='1.0') -> float:
+    if s in ('NaN', 'INF', '-INF', '+INF'):
+        return _parse_double(s, ver)
+    # round the exact decimal value directly to binary32 (no double rounding): use the exact fraction
+    sign, body = _split_sign(s)
+    d = _parse_double(body, ver)           # validates the syntax
+    mant, e, exp = body.partition('e') if 'e' in body else body.partition('E')
+    m = _parse_decimal_body(mant)
+    x = 0
+    if e:
+        es, eb = _split_sign(exp)
+        x = -_int_of(eb) if es == '-' else _int_of(eb)
+    if m == 0 or x < -800:
+        v = 0.0
+    elif x > 400:
+        v = math.inf
+    else:
+        v = _fraction_to_float32(m * Fraction(10) ** x)
+    return -v if sign == '-' else v
+
+
+def _fraction_to_float32(fr: Fraction) -> float:
+    """correctly rounded (nearest, ties to even) binary32 value of a positive fraction"""
+    if fr <= 0:
+        return 0.0
+    # find e with 2**e <= fr < 2**(e+1)
+    e = fr.numerator.bit_length() - fr.denominator.bit_length()
+    if Fraction(2) ** e > fr:
+        e -= 1
+    elif Fraction(2) ** (e + 1) <= fr:
+        e += 1
+    e = max(e, -126)                      # subnormals share the exponent -126
+    q = fr / Fraction(2) ** (e - 23)      # significand in units of 2**(e-23)
+    n = q.numerator // q.denominator
+    rem = q - n
+    if rem > Fraction(1, 2) or (rem == Fraction(1, 2) and n % 2 == 1):
+        n += 1
+    v = Fraction(n) * Fraction(2) ** (e - 23)
+    if v >= Fraction(2) ** 128:
+        return math.inf
+    return v.numerator / v.denominator
+
+
+# -- boolean ----------------------------------------------------------------
+
+def parse_boolean(s: str, ver='1.0') -> bool:
+    if s in ('true', '1'):
+        return True
+    if s in ('false', '0'):
+        return False
+    raise LexError('boolean')
+
+
+# -- strings and names ---------------------------------------------------------
+_ASCII_LETTERS = 'abcdefghijklmnopqrstuvwxyzABCDEFGHIJKLMNOPQRSTUVWXYZ'
+#: characters on which XML 1.0 4th and 5th edition agree (beyond ASCII): name start / name char
+_AGREED_START = set(_ASCII_LETTERS + '_' + 'éÉ')
+_AGREED_NAMECHAR = _AGREED_START | set(_DIGITS + '.-' + '·' + '́')
+_AGREED_NOT_NAME = set(' !"#$%&\'()*+,/;<=>?@[\\]^`{|}~\t\n\r\xa0×÷')
+
+
+def _name_class(c: str, first: bool, colon_ok: bool):
+    """True / False / None (editions disagree or not tabulated)"""
+    if c == ':':
+        return colon_ok
+    if c in (_AGREED_START if first else _AGREED_NAMECHAR):
+        return True
+    if first and c in _AGREED_NAMECHAR:
+        return False          # digits . - middle dot, combining mark: never a start character
+    if c in _AGREED_NOT_NAME:
+        return False
+    return None
+
+
+def _parse_name(s: str, first_is_start: bool, colon_ok: bool, what: str) -> str:
+    if s == '':
+        raise LexError(what)
+    undecided = False
+    for i, c in enumerate(s):
+        k = _name_class(c, first_is_start and i == 0, colon_ok)
+        if k is False:
+            raise LexError(what)
+        if k is None:
+            undecided = True
+    if undecided:
+        raise NoVerdict('name character outside the tabulated set')
+    return s
+
+
+def parse_Name(s, ver='1.0'):
+    return _parse_name(s, True, True, 'Name')
+
+
+def parse_NCName(s, ver='1.0'):
+    return _parse_name(s, True, False, 'NCName')
+
+
+def parse_NMTOKEN(s, ver='1.0'):
+    return _parse_name(s, False, True, 'NMTOKEN')
+
+
+def parse_language(s, ver='1.0'):
+    parts = s.split('-')
+    ok = len(parts[0]) in range(1, 9) and all(c in _ASCII_LETTERS for c in parts[0])
+    for p in parts[1:]:
+        ok = ok and len(p) in range(1, 9) and all(c in _ASCII_LETTERS + _DIGITS for c in p)
+    if not ok:
+        raise LexError('language')
+    return s
+
+
+def parse_string(s, ver='1.0'):
+    return s
+
+
+def parse_QName(s, ver='1.0'):
+    if s.count(':') > 1:
+        raise LexError('QName')
+    prefix, colon, local = s.rpartition(':')
+    if colon and prefix == '':
+        raise LexError('QName')
+    if prefix:
+        parse_NCName(prefix)
+    parse_NCName(local)
+    return ('Q', prefix, local)
+
+
+_URI_SAFE = set(_ASCII_LETTERS + _DIGITS + "-._~:/?#[]@!$&'()*+,;=%")
+
+
+def parse_anyURI(s, ver='1.0'):
+    """verdict only for the clearly valid (RFC 3986 characters, well-formed % escapes, at most one #, no
+    '[' ']' , no scheme-less first segment with a colon) and the clearly invalid (broken % escape, two #)"""
+    bad_escape = False
+    for i, c in enumerate(s):
+        if c == '%':
+            h = s[i + 1:i + 3]
+            if len(h) < 2 or any(x not in '0123456789abcdefABCDEF' for x in h):
+                bad_escape = True
+    if bad_escape or s.count('#') > 1:
+        raise LexError('anyURI')
+    if all(c in _URI_SAFE for c in s) and '[' not in s and ']' not in s and ':' not in s.split('/')[0].split('?')[0].split('#')[0]:
+        return s
+    if all(c in _URI_SAFE for c in s) and '[' not in s and ']' not in s and s[:1] in _ASCII_LETTERS and \
+            all(c in _ASCII_LETTERS + _DIGITS + '+-.' for c in s.split(':')[0]) and '://' in s and \
+            ':' not in s.split('://', 1)[1]:
+        return s
+    raise NoVerdict('anyURI')
+
+
+# -- binary -------------------------------------------------------------------
+_B64 = 'ABCDEFGHIJKLMNOPQRSTUVWXYZabcdefghijklmnopqrstuvwxyz0123456789+/'
+_HEXD = '0123456789ABCDEF'
+
+
+def parse_hexBinary(s, ver='1.0') -> bytes:
+    if len(s) % 2:
+        raise LexError('hexBinary: odd length')
+    out = []
+    u = s.upper()
+    for i in range(0, len(s), 2):
+        if s[i] not in '0123456789abcdefABCDEF' or s[i + 1] not in '0123456789abcdefABCDEF':
+            raise LexError('hexBinary')
+        out.append(_HEXD.index(u[i]) * 16 + _HEXD.index(u[i + 1]))
+    return bytes(out)
+
+
+def parse_base64Binary(s, ver='1.0') -> bytes:
+    """XSD 3.2.16 lexical grammar; after whiteSpace collapse only single #x20 between characters remain"""
+    if s.startswith(' ') or s.endswith(' ') or '  ' in s:
+        raise LexError('base64Binary')       # cannot occur after collapse
+    chars = s.replace(' ', '')
+    if len(chars) % 4:
+        raise LexError('base64Binary: length')
+    if any(c not in _B64 + '=' for c in chars):
+        raise LexError('base64Binary: alphabet')
+    body = chars.rstrip('=')
+    pad = len(chars) - len(body)
+    if '=' in body or pad > 2:
+        raise LexError('base64Binary: padding')
+    if pad == 1 and body[-1] not in 'AEIMQUYcgkosw048':
+        raise LexError('base64Binary: non-zero padding bits')
+    if pad == 2 and body[-1] not in 'AQgw':
+        raise LexError('base64Binary: non-zero padding bits')
+    bits = 0
+    nbits = 0
+    out = []
+    for c in body:
+        bits = (bits << 6) | _B64.index(c)
+        nbits += 6
+        if nbits >= 8:
+            nbits -= 8
+            out.append((bits >> nbits) & 0xFF)
+    return bytes(out)
+
+
+def hex_canonical(b: bytes) -> str:
+    return ''.join(_HEXD[x >> 4] + _HEXD[x & 15] for x in b)
+
+
+def base64_canonical(b: bytes) -> str:
+    out = []
+    for i in range(0, len(b), 3):
+        chunk = b[i:i + 3]
+        n = int.from_bytes(chunk + b'\0' * (3 - len(chunk)), 'big')
+        quad = [_B64[(n >> 18) & 63], _B64[(n >> 12) & 63], _B64[(n >> 6) & 63], _B64[n & 63]]
+        if len(chunk) == 1:
+            quad[2:] = ['=', '=']
+        elif len(chunk) == 2:
+            quad[3] = '='
+        out.append(''.join(quad))
+    return ''.join(out)
+
+
+# -- durations ------------------------------------------------------------------
+
+def _parse_duration(s: str, kind: str):
+    """kind: 'duration' | 'yearMonthDuration' | 'dayTimeDuration' -> ('D', months, seconds)"""
+    neg = s.startswith('-')
+    body = s[1:] if neg else s
+    if not body.startswith('P'):
+        raise LexError(kind)
+    body = body[1:]
+    date_part, t, time_part = body.partition('T')
+    if t and time_part == '':
+        raise LexError(kind + ': T without time items')
+    if date_part == '' and not t:
+        raise LexError(kind + ': no items')
+
+    def items(part, designators, frac_ok):
+        res, num, seen_dot = {}, '', False
+        order = -1
+        for c in part:
+            if c in _DIGITS:
+                num += c
+            elif c == '.':
+                if seen_dot:
+                    raise LexError(kind)
+                seen_dot = True
+                num += c
+            elif c in designators:
+                idx = designators.index(c)
+                if idx <= order or num == '' or num.startswith('.') or num.endswith('.'):
+                    raise LexError(kind)
+                if '.' in num and not (frac_ok and c == 'S'):
+                    raise LexError(kind)
+                res[c] = num
+                order, num, seen_dot = idx, '', False
+            else:
+                raise LexError(kind)
+        if num:
+            raise LexError(kind)
+        return res
+
+    d = items(date_part, 'YMD', False)
+    tm = items(time_part, 'HMS', True)
+    if kind == 'yearMonthDuration' and ('D' in d or t):
+        raise LexError(kind)
+    if kind == 'dayTimeDuration' and ('Y' in d or 'M' in d):
+        raise LexError(kind)
+    months = _int_of(d.get('Y', '0')) * 12 + _int_of(d.get('M', '0'))
+    secs = Fraction(_int_of(d.get('D', '0')) * 86400 + _int_of(tm.get('H', '0')) * 3600 + _int_of(tm.get('M', '0')) * 60)
+    if 'S' in tm:
+        secs += _parse_decimal_body(tm['S'])
+    if neg:
+        months, secs = -months, -secs
+    return ('D', months, secs)
+
+
+def parse_duration(s, ver='1.0'):
+    return _parse_duration(s, 'duration')
+
+
+def parse_yearMonthDuration(s, ver='1.0'):
+    return _parse_duration(s, 'yearMonthDuration')
+
+
+def parse_dayTimeDuration(s, ver='1.0'):
+    return _parse_duration(s, 'dayTimeDuration')
+
+
+def _ym_string(months: int) -> str:
+    a = abs(months)
+    y, m = divmod(a, 12)
+    if y and m:
+        return 'P%dY%dM' % (y, m)
+    if y:
+        return 'P%dY' % y
+    return 'P%dM' % m
+
+
+def _dt_string(secs: Fraction) -> str:
+    a = abs(secs)
+    whole = a.numerator // a.denominator
+    frac = a - whole
+    d, rem = divmod(whole, 86400)
+    h, rem = divmod(rem, 3600)
+    mi, s = divmod(rem, 60)
+    out = 'P'
+    if d:
+        out += '%dD' % d
+    if h or mi or s or frac:
+        out += 'T'
+        if h:
+            out += '%dH' % h
+        if mi:
+            out += '%dM' % mi
+        if s or frac:
+            out += decimal_to_string(Fraction(s) + frac) + 'S'
+    return out if out != 'P' else 'PT0S'
+
+
+def duration_canonical(v, kind='duration') -> str:
+    """F&O 3.1 19.1.2.2: yearMonthDuration 'PnYnM' (zero: 'P0M'); dayTimeDuration 'PnDTnHnMnS' (zero: 'PT0S');
+    duration: both parts, omitting a zero part (both zero: 'PT0S')"""
+    _, months, secs = v
+    neg = months < 0 or secs < 0
+    sign = '-' if neg else ''
+    if kind == 'yearMonthDuration':
+        return sign + _ym_string(months)
+    if kind == 'dayTimeDuration':
+        return sign + _dt_string(secs)
+    if months and secs:
+        return sign + _ym_string(months) + _dt_string(secs)[1:]
+    if months:
+        return sign + _ym_string(months)
+    return sign + _dt_string(secs)
+
+
+# -- date / time family ---------------------------------------------------------
+
+def _is_leap(astro_year: int) -> bool:
+    return astro_year % 4 == 0 and (astro_year % 100 != 0 or astro_year % 400 == 0)
+
+
+def _days_in_month(year, month) -> int:
+    if month == 2:
+        return 29 if (year is None or _is_leap(year)) else 28
+    return 30 if month in (4, 6, 9, 11) else 31
+
+
+def _take_tz(s: str):
+    """split a trailing timezone: (rest, tz minutes | None)"""
+    if s.endswith('Z'):
+        return s[:-1], 0
+    if len(s) >= 6 and s[-6] in '+-' and s[-3] == ':':
+        hh, mm = s[-5:-3], s[-2:]
+        if _all_digits(hh) and _all_digits(mm):
+            h, m = _int_of(hh), _int_of(mm)
+            if not (m <= 59 and (h <= 13 or (h == 14 and m == 0))):
+                raise LexError('timezone range')
+            off = h * 60 + m
+            return s[:-6], (-off if s[-6] == '-' else off)
+    return s, None
+
+
+def _parse_year(ys: str, ver: str) -> int:
+    neg = ys.startswith('-')
+    digits = ys[1:] if neg else ys
+    if not _all_digits(digits) or len(digits) < 4:
+        raise LexError('year')
+    if len(digits) > 4:
+        if digits[0] == '0':
+            raise LexError('year: leading zero')
+        raise NoVerdict('year with more than four digits')
+    y = _int_of(digits)
+    if y == 0:
+        if ver == '1.0' or neg and False:
+            raise LexError('year 0000 is not allowed in XSD 1.0')
+    return -y if neg else y
+
+
+def _parse_time_fields(ts: str):
+    """hh:mm:ss(.s+)? -> (h, m, sec Fraction, end_of_day)"""
+    if len(ts) < 8 or ts[2] != ':' or ts[5] != ':':
+        raise LexError('time')
+    hh, mm, ss = ts[0:2], ts[3:5], ts[6:]
+    sec_i, dot, sec_f = ss.partition('.')
+    if not (_all_digits(hh) and _all_digits(mm) and len(sec_i) == 2 and _all_digits(sec_i)):
+        raise LexError('time')
+    if dot and not _all_digits(sec_f):
+        raise LexError('time: fraction')
+    h, m, s = _int_of(hh), _int_of(mm), _int_of(sec_i)
+    frac = Fraction(_int_of(sec_f), 10 ** len(sec_f)) if dot else Fraction(0)
+    if h == 24:
+        if m == 0 and s == 0 and frac == 0:
+            return 0, 0, Fraction(0), True
+        raise LexError('time: hour 24')
+    if h > 23 or m > 59:
+        raise LexError('time range')
+    if s == 60:
+        raise NoVerdict('leap second')
+    if s > 59:
+        raise LexError('time range')
+    if dot and len(sec_f.rstrip('0')) > 6:
+        raise NoVerdict('more than 6 fractional second digits')
+    return h, m, Fraction(s) + frac, False
+
+
+def _next_day(y, mo, d):
+    d += 1
+    if d > _days_in_month(y, mo):
+        d = 1
+        mo += 1
+        if mo > 12:
+            mo = 1
+            y += 1
+            if y == 0:
+                raise NoVerdict('year rollover at the era boundary')
+    return y, mo, d
+
+
+def _parse_dt(s: str, ver: str, kind: str):
+    rest, tz = _take_tz(s)
+    y = mo = d = None
+    h = mi = 0
+    sec = Fraction(0)
+    eod = False
+    if kind in ('dateTime', 'dateTimeStamp'):
+        datepart, t, timepart = rest.partition('T')
+        if not t:
+            raise LexError(kind)
+    elif kind == 'time':
+        datepart, timepart = None, rest
+    else:
+        datepart, timepart = rest, None
+    if datepart is not None:
+        if kind in ('dateTime', 'dateTimeStamp', 'date'):
+            # [-]YYYY-MM-DD
+            if len(datepart) < 10 or datepart[-3] != '-' or datepart[-6] != '-':
+                raise LexError(kind)
+            ys, ms, ds = datepart[:-6], datepart[-5:-3], datepart[-2:]
+        elif kind == 'gYearMonth':
+            if len(datepart) < 7 or datepart[-3] != '-':
+                raise LexError(kind)
+            ys, ms, ds = datepart[:-3], datepart[-2:], None
+        elif kind == 'gYear':
+            ys, ms, ds = datepart, None, None
+        elif kind == 'gMonthDay':
+            if len(datepart) != 7 or datepart[:2] != '--' or datepart[4] != '-':
+                raise LexError(kind)
+            ys, ms, ds = None, datepart[2:4], datepart[5:7]
+        elif kind == 'gDay':
+            if len(datepart) != 5 or datepart[:3] != '---':
+                raise LexError(kind)
+            ys, ms, ds = None, None, datepart[3:5]
+        elif kind == 'gMonth':
+            if len(datepart) != 4 or datepart[:2] != '--':
+                raise LexError(kind)
+            ys, ms, ds = None, datepart[2:4], None
+        else:
+            raise ValueError(kind)
+        if ms is not None:
+            if not (len(ms) == 2 and _all_digits(ms)) or not 1 <= _int_of(ms) <= 12:
+                raise LexError(kind + ': month')
+            mo = _int_of(ms)
+        if ds is not None:
+            if not (len(ds) == 2 and _all_digits(ds)) or not 1 <= _int_of(ds) <= 31:
+                raise LexError(kind + ': day')
+            d = _int_of(ds)
+        if ys is not None:
+            y = _parse_year(ys, ver)
+        if d is not None and mo is not None:
+            if y is None:
+                if d > _days_in_month(None, mo):
+                    raise LexError(kind + ': day of month')
+            else:
+                if mo == 2 and d == 29 and y <= 0:
+                    raise NoVerdict('29 February before year 1')
+                if d > _days_in_month(y, mo):
+                    raise LexError(kind + ': day of month')
+    if timepart is not None:
+        h, mi, sec, eod = _parse_time_fields(timepart)
+    if eod and y is not None:
+        y, mo, d = _next_day(y, mo, d)
+    if kind == 'dateTimeStamp' and tz is None:
+        raise LexError('dateTimeStamp requires a timezone')
+    return ('T', 'dateTime' if kind == 'dateTimeStamp' else kind, y, mo, d, h, mi, sec, tz)
+
+
+def _mk_dt_parser(kind):
+    def parse(s, ver='1.0'):
+        if kind == 'dateTimeStamp' and ver == '1.0':
+            raise NoVerdict('xs:dateTimeStamp does not exist in XSD 1.0')
+        return _parse_dt(s, ver, kind)
+    return parse
+
+
+def _tz_string(tz) -> str:
+    if tz is None:
+        return ''
+    if tz == 0:
+        return 'Z'
+    a = abs(tz)
+    return '%s%02d:%02d' % ('-' if tz < 0 else '+', a // 60, a % 60)
+
+
+def _year_string(y: int) -> str:
+    return ('-' if y < 0 else '') + '%04d' % abs(y)
+
+
+def _sec_string(sec: Fraction) -> str:
+    whole = sec.numerator // sec.denominator
+    frac = sec - whole
+    out = '%02d' % whole
+    if frac:
+        out += decimal_to_string(frac)[1:]       # '.xyz'
+    return out
+
+
+def datetime_canonical(v) -> str:
+    """F&O 19.1.2.2: components as in the (local) value, fractional seconds without trailing zeros,
+    timezone kept, Z for a zero offset; 24:00:00 does not exist in the value space"""
+    _, kind, y, mo, d, h, mi, sec, tz = v
+    if kind == 'dateTime':
+        body = '%s-%02d-%02dT%02d:%02d:%s' % (_year_string(y), mo, d, h, mi, _sec_string(sec))
+    elif kind == 'date':
+        body = '%s-%02d-%02d' % (_year_string(y), mo, d)
+    elif kind == 'time':
+        body = '%02d:%02d:%s' % (h, mi, _sec_string(sec))
+    elif kind == 'gYearMonth':
+        body = '%s-%02d' % (_year_string(y), mo)
+    elif kind == 'gYear':
+        body = _year_string(y)
+    elif kind == 'gMonthDay':
+        body = '--%02d-%02d' % (mo, d)
+    elif kind == 'gDay':
+        body = '---%02d' % d
+    elif kind == 'gMonth':
+        body = '--%02d' % mo
+    else:
+        raise ValueError(kind)
+    return body + _tz_string(tz)
+
+
+# -- the type table ---------------------------------------------------------------
+
+class TypeInfo:
+    def __init__(self, name, ws, parse, canon, primitive, base=None):
+        self.name, self.ws, self.parse, self.canon, self.primitive, self.base = name, ws, parse, canon, primitive, base
+
+
+def _canon_identity(v):
+    return v
+
+
+def _canon_float(v):
+    return double_to_string_float32(v)
+
+
+def double_to_string_float32(x: float) -> str:
+    """F&O string form of an xs:float: shortest digits that round-trip through binary32"""
+    if math.isnan(x) or math.isinf(x) or x == 0:
+        return double_to_string(x)
+    import struct
+    for prec in range(1, 10):
+        s = '%.*e' % (prec - 1, abs(x))
+        if to_float32(float(s)) == abs(x):
+            break
+    mant, _, e = s.partition('e')
+    digits = mant.replace('.', '').rstrip('0') or '0'
+    exp10 = int(e)
+    sign = '-' if x < 0 else ''
+    a = abs(x)
+    if 0.000001 <= a < 1000000:
+        fr = Fraction(int(digits)) * Fraction(10) ** (exp10 - len(digits) + 1)
+        return sign + decimal_to_string(fr)
+    return sign + digits[0] + '.' + (digits[1:] or '0') + 'E' + integer_to_string(exp10)
+
+
+TYPES: dict = {}
+
+
+def _reg(name, ws, parse, canon, primitive, base=None):
+    TYPES[name] = TypeInfo(name, ws, parse, canon, primitive, base)
+
+
+_reg('string', 'preserve', parse_string, _canon_identity, 'string')
+_reg('normalizedString', 'replace', parse_string, _canon_identity, 'string', 'string')
+_reg('token', 'collapse', parse_string, _canon_identity, 'string', 'normalizedString')
+_reg('language', 'collapse', parse_language, _canon_identity, 'string', 'token')
+_reg('NMTOKEN', 'collapse', parse_NMTOKEN, _canon_identity, 'string', 'token')
+_reg('Name', 'collapse', parse_Name, _canon_identity, 'string', 'token')
+_reg('NCName', 'collapse', parse_NCName, _canon_identity, 'string', 'Name')
+_reg('ID', 'collapse', parse_NCName, _canon_identity, 'string', 'NCName')
+_reg('IDREF', 'collapse', parse_NCName, _canon_identity, 'string', 'NCName')
+_reg('ENTITY', 'collapse', parse_NCName, _canon_identity, 'string', 'NCName')
+_reg('untypedAtomic', 'preserve', parse_string, _canon_identity, 'untypedAtomic')
+_reg('anyURI', 'collapse', parse_anyURI, _canon_identity, 'anyURI')
+_reg('QName', 'collapse', parse_QName, lambda v: (v[1] + ':' if v[1] else '') + v[2], 'QName')
+_reg('boolean', 'collapse', parse_boolean, lambda v: 'true' if v else 'false', 'boolean')
+_reg('decimal', 'collapse', parse_decimal, decimal_to_string, 'decimal')
+for _t in INTEGER_TYPES:
+    _reg(_t, 'collapse', make_int_parser(_t), integer_to_string, 'decimal', 'integer' if _t != 'integer' else 'decimal')
+_reg('double', 'collapse', parse_double, double_to_string, 'double')
+_reg('float', 'collapse', parse_float, _canon_float, 'float')
+_reg('duration', 'collapse', parse_duration, lambda v: duration_canonical(v, 'duration'), 'duration')
+_reg('yearMonthDuration', 'collapse', parse_yearMonthDuration, lambda v: duration_canonical(v, 'yearMonthDuration'), 'duration', 'duration')
+_reg('dayTimeDuration', 'collapse', parse_dayTimeDuration, lambda v: duration_canonical(v, 'dayTimeDuration'), 'duration', 'duration')
+for _t in ('dateTime', 'dateTimeStamp', 'date', 'time', 'gYearMonth', 'gYear', 'gMonthDay', 'gDay', 'gMonth'):
+    _reg(_t, 'collapse', _mk_dt_parser(_t), datetime_canonical, 'dateTime' if _t == 'dateTimeStamp' else _t,
+         'dateTime' if _t == 'dateTimeStamp' else None)
+_reg('hexBinary', 'collapse', parse_hexBinary, hex_canonical, 'hexBinary')
+_reg('base64Binary', 'collapse', parse_base64Binary, base64_canonical, 'base64Binary')
+
+
+def normalize(t: str, s: str) -> str:
+    ws = TYPES[t].ws
+    return s if ws == 'preserve' else ws_replace(s) if ws == 'replace' else ws_collapse(s)
+
+
+def parse(t: str, s: str, ver: str = '1.0'):
+    """value of the literal s for type t; raises LexError (not in the lexical/value space) or NoVerdict"""
+    return TYPES[t].parse(normalize(t, s), ver)
+
+
+def is_valid(t: str, s: str, ver: str = '1.0'):
+    """True / False / None (no verdict)"""
+    try:
+        parse(t, s, ver)
+        return True
+    except LexError:
+        return False
+    except NoVerdict:
+        return None
+
+
+def canonical(t: str, v) -> str:
+    """F&O 19.1.2 string form of the value v of type t"""
+    return TYPES[t].canon(v)
+
+
+def values_equal(a, b) -> bool:
+    if isinstance(a, float) and isinstance(b, float) and math.isnan(a) and math.isnan(b):
+        return True
+    return a == b
+
+
+def self_test_types():
+    F = Fraction
+    assert ws_collapse(' \t a  b\n') == 'a b' and ws_replace('a\tb\n') == 'a b ' and ws_collapse('a\xa0 b') == 'a\xa0 b'
+    assert parse('decimal', ' +1.50 ') == F(3, 2) and parse('decimal', '.5') == F(1, 2) and parse('decimal', '5.') == 5
+    for bad in ('', '.', '1e3', '1_0', '+-1', '1,0', '١', '1 0', '--1', 'INF'):
+        assert is_valid('decimal', bad) is False, bad
+    assert parse('integer', '-0012') == -12 and is_valid('integer', '1.0') is False and is_valid('integer', '') is False
+    assert is_valid('byte', '127') and is_valid('byte', '-128') and not is_valid('byte', '128') and not is_valid('byte', '-129')
+    assert is_valid('unsignedLong', '18446744073709551615') and not is_valid('unsignedLong', '18446744073709551616')
+    assert not is_valid('unsignedByte', '-1') and is_valid('unsignedByte', '-0') and is_valid('unsignedByte', '+255')
+    assert not is_valid('positiveInteger', '0') and not is_valid('negativeInteger', '0') and is_valid('nonPositiveInteger', '0')
+    assert is_valid('long', '9223372036854775807') and not is_valid('long', '9223372036854775808')
+    assert parse('double', '1e-7') == 1e-7 and parse('double', '-1.5E3') == -1500.0 and parse('double', '.5e1') == 5.0
+    assert math.isnan(parse('double', 'NaN')) and parse('double', '-INF') == -math.inf
+    assert is_valid('double', '+INF', '1.0') is False and is_valid('double', '+INF', '1.1') is True
+    for bad in ('inf', 'nan', 'NAN', 'Infinity', '-NaN', '+NaN', '1e', 'e5', '1_0', '1e5.0', '0x10', '1.0f', '', '1 e5', 'INFINITY'):
+        assert is_valid('double', bad, '1.1') is False, bad
+    assert parse('double', '1e400') == math.inf and parse('double', '1e-400') == 0.0 and parse('double', '0e999999') == 0.0
+    assert parse('float', '3.4028235e38') == 3.4028234663852886e38 and parse('float', '3.5e38') == math.inf
+    assert parse('float', '0.1') == to_float32(0.1) and parse('float', '1e-46') == 0.0 and parse('float', '1e-45') == 1.401298464324817e-45
+    assert parse('float', '16777217') == 16777216.0 and parse('float', '16777219') == 16777220.0
+    assert canonical('float', parse('float', '0.1')) == '0.1' and canonical('float', parse('float', '1e10')) == '1.0E10'
+    assert canonical('float', parse('float', '16777217')) == '1.6777216E7'
+    assert parse('boolean', ' true ') is True and parse('boolean', '0') is False
+    for bad in ('TRUE', 'True', 'yes', '', '2', 't', 'false1', '00', '+1'):
+        assert is_valid('boolean', bad) is False, bad
+    assert parse('hexBinary', '0fB7') == b'\x0f\xb7' and canonical('hexBinary', b'\x0f\xb7') == '0FB7'
+    assert is_valid('hexBinary', '') and not is_valid('hexBinary', 'F') and not is_valid('hexBinary', '0G') and not is_valid('hexBinary', '0F B7')
+    assert parse('base64Binary', 'AQID') == b'\x01\x02\x03' and parse('base64Binary', ' AQ I= ') == b'\x01\x02'
+    assert parse('base64Binary', 'AQ==') == b'\x01' and parse('base64Binary', '') == b''
+    for bad in ('A', 'AQ=', 'AQI', 'AR==', 'AQJ=', '=AQI', 'AQ=I', 'AQ===', 'AQID!', 'AQ==AQ=='):
+        assert is_valid('base64Binary', bad) is False, bad
+    import base64 as _b
+    for raw in (b'', b'a', b'ab', b'abc', b'\xff\xfe\xfd\xfc', bytes(range(20))):
+        assert base64_canonical(raw) == _b.b64encode(raw).decode() and parse('base64Binary', base64_canonical(raw)) == raw
+    assert parse('duration', 'P1Y2M3DT4H5M6.5S') == ('D', 14, F(3 * 86400 + 4 * 3600 + 5 * 60) + F(13, 2))
+    assert parse('duration', '-PT0S') == ('D', 0, 0) and parse('duration', 'P1M') == ('D', 1, 0) and parse('duration', 'PT1M') == ('D', 0, 60)
+    for bad in ('P', 'PT', 'P1.5Y', '1Y', 'P1S', 'PT1Y', 'P1MT', 'P-1Y', '+P1Y', 'P1Y1Y', 'P1M1Y', 'PT1S1M', 'P1YT', 'PT.5S', 'PT5.S', 'pt1s', 'P 1Y', 'PT1.5M'):
+        assert is_valid('duration', bad) is False, bad
+    assert is_valid('yearMonthDuration', 'P1Y2M') and not is_valid('yearMonthDuration', 'P1D') and not is_valid('yearMonthDuration', 'P1YT0S')
+    assert is_valid('dayTimeDuration', 'P1DT2H') and not is_valid('dayTimeDuration', 'P1M') and is_valid('dayTimeDuration', 'PT1M')
+    assert canonical('duration', parse('duration', 'P14M')) == 'P1Y2M' and canonical('duration', parse('duration', 'PT36H')) == 'P1DT12H'
+    assert canonical('duration', parse('duration', 'P0Y')) == 'PT0S' and canonical('yearMonthDuration', parse('yearMonthDuration', 'P0Y')) == 'P0M'
+    assert canonical('dayTimeDuration', parse('dayTimeDuration', '-PT90.50S')) == '-PT1M30.5S'
+    assert canonical('duration', parse('duration', '-P1Y13M1DT25H')) == '-P2Y1M2DT1H'
+    assert parse('dateTime', '2000-01-01T00:00:00Z') == ('T', 'dateTime', 2000, 1, 1, 0, 0, 0, 0)
+    assert canonical('dateTime', parse('dateTime', '2000-12-31T24:00:00')) == '2001-01-01T00:00:00'
+    assert canonical('dateTime', parse('dateTime', '1999-05-31T13:20:00.500-05:00')) == '1999-05-31T13:20:00.5-05:00'
+    assert canonical('dateTime', parse('dateTime', '2000-01-01T00:00:00+00:00')) == '2000-01-01T00:00:00Z'
+    assert canonical('time', parse('time', '13:20:00.000-00:00')) == '13:20:00Z'
+    for bad in ('2000-02-30T00:00:00', '2000-13-01T00:00:00', '2000-00-10T00:00:00', '2001-02-29T00:00:00', '2000-01-01T25:00:00',
+                '2000-01-01T24:00:01', '2000-01-01T00:60:00', '2000-1-01T00:00:00', '2000-01-01', '2000-01-01T00:00', '2000-01-01 00:00:00',
+                '2000-01-01T00:00:00+14:01', '2000-01-01T00:00:00+15:00', '2000-01-01T00:00:00z', '02000-01-01T00:00:00',
+                '200-01-01T00:00:00', '+2000-01-01T00:00:00', '2000-01-01T00:00:00.', '2000-01-01T00:00:00Z+01:00', '2000-01-32T00:00:00'):
+        assert is_valid('dateTime', bad, '1.1') is False, bad
+    assert is_valid('dateTime', '0000-01-01T00:00:00', '1.0') is False and is_valid('dateTime', '0000-01-01T00:00:00', '1.1') is True
+    assert is_valid('dateTime', '-0001-01-01T00:00:00', '1.0') is True and is_valid('date', '12000-01-01') is None
+    assert is_valid('date', '2000-02-29') and not is_valid('date', '1900-02-29') and is_valid('date', '2004-02-29+14:00')
+    assert is_valid('time', '24:00:00') and canonical('time', parse('time', '24:00:00')) == '00:00:00' and not is_valid('time', '24:00:00.1')
+    assert is_valid('gMonthDay', '--02-29') and not is_valid('gMonthDay', '--02-30') and not is_valid('gMonthDay', '--04-31')
+    assert is_valid('gDay', '---31') and not is_valid('gDay', '---32') and not is_valid('gDay', '--31') and is_valid('gDay', '---01Z')
+    assert is_valid('gMonth', '--12') and not is_valid('gMonth', '--13') and is_valid('gMonth', '--01-05:00')
+    assert is_valid('gYear', '2000') and is_valid('gYear', '-2000') and not is_valid('gYear', '200') and is_valid('gYear', '2000Z')
+    assert is_valid('gYearMonth', '2000-12') and not is_valid('gYearMonth', '2000-13') and not is_valid('gYearMonth', '2000-1')
+    assert is_valid('dateTimeStamp', '2000-01-01T00:00:00', '1.1') is False and is_valid('dateTimeStamp', '2000-01-01T00:00:00Z', '1.1') is True
+    assert is_valid('language', 'en-US') and not is_valid('language', 'en_US') and not is_valid('language', 'abcdefghi') and not is_valid('language', '')
+    assert is_valid('NCName', 'a.b-c_1') and not is_valid('NCName', 'a:b') and is_valid('Name', 'a:b') and not is_valid('Name', '1a')
+    assert is_valid('NMTOKEN', '1a') and not is_valid('NMTOKEN', 'a b') and not is_valid('NMTOKEN', '') and is_valid('NMTOKEN', ' 1a ')
+    assert is_valid('NCName', 'a‿b') is None and is_valid('NCName', '') is False
+    assert parse('QName', 'xs:int') == ('Q', 'xs', 'int') and not is_valid('QName', ':a') and not is_valid('QName', 'a:') and not is_valid('QName', 'a:b:c')
+    assert is_valid('anyURI', 'http://example.com/a%20b#f') is True and is_valid('anyURI', '%zz') is False and is_valid('anyURI', 'a#b#c') is False
+    assert is_valid('anyURI', 'a b') is None and is_valid('anyURI', '') is True
+    assert parse('token', '  a \t b ') == 'a b' and parse('normalizedString', 'a\tb') == 'a b' and parse('string', ' a\t') == ' a\t'
+
+
+# ==========================================================================
+# Part 3: casting (F&O 3.1 section 19: casting table 19.1 and the rules 19.1.1 - 19.1.8, 19.2, 19.3)
+# ==========================================================================
+# table classes
+_CLS = {'untypedAtomic': 'uA', 'string': 'str', 'float': 'flt', 'double': 'dbl', 'decimal': 'dec', 'integer': 'int',
+        'duration': 'dur', 'yearMonthDuration': 'yMD', 'dayTimeDuration': 'dTD', 'dateTime': 'dT', 'time': 'tim', 'date': 'dat',
+        'gYearMonth': 'gYM', 'gYear': 'gYr', 'gMonthDay': 'gMD', 'gDay': 'gDay', 'gMonth': 'gMon', 'boolean': 'bool',
+        'base64Binary': 'b64', 'hexBinary': 'hxB', 'anyURI': 'aURI', 'QName': 'QN', 'dateTimeStamp': 'dT'}
+for _t in INTEGER_TYPES:
+    _CLS[_t] = 'int'
+for _t in ('normalizedString', 'token', 'language', 'NMTOKEN', 'Name', 'NCName', 'ID', 'IDREF', 'ENTITY'):
+    _CLS[_t] = 'str'
+
+_NUM = ('flt', 'dbl', 'dec', 'int')
+#: F&O 19.1 casting table restricted to Y / M cells (everything absent is N).  uA / str sources: M to everything
+#: (QName: only literals in 2.0, see NoVerdict below); every source: Y to uA and str.
+_ALLOWED = {
+    'flt': _NUM + ('bool',), 'dbl': _NUM + ('bool',), 'dec': _NUM + ('bool',), 'int': _NUM + ('bool',),
+    'bool': _NUM + ('bool',),
+    'dur': ('dur', 'yMD', 'dTD'), 'yMD': ('dur', 'yMD', 'dTD'), 'dTD': ('dur', 'yMD', 'dTD'),
+    'dT': ('dT', 'tim', 'dat', 'gYM', 'gYr', 'gMD', 'gDay', 'gMon'), 'tim': ('tim',),
+    'dat': ('dT', 'dat', 'gYM', 'gYr', 'gMD', 'gDay', 'gMon'),
+    'gYM': ('gYM',), 'gYr': ('gYr',), 'gMD': ('gMD',), 'gDay': ('gDay',), 'gMon': ('gMon',),
+    'b64': ('b64', 'hxB'), 'hxB': ('b64', 'hxB'), 'aURI': ('aURI',), 'QN': ('QN',),
+}
+
+
+def table_class(t: str) -> str:
+    return _CLS[t]
+
+
+def cast_allowed(s: str, t: str) -> bool:
+    """is the (source type, target type) cell of the casting table Y or M (as opposed to N)?"""
+    cs, ct = _CLS[s], _CLS[t]
+    if ct in ('uA', 'str') or cs in ('uA', 'str'):
+        return True
+    return ct in _ALLOWED[cs]
+
+
+class CastError(Exception):
+    """the cast must raise a dynamic or type error (kind: 'forbidden' = N cell, 'value' = M cell with a bad value)"""
+
+    def __init__(self, kind):
+        super().__init__(kind)
+        self.kind = kind
+
+
+def _fraction_is_short(fr: Fraction, limit=18) -> bool:
+    n = abs(fr.numerator)
+    return len(str(n).rstrip('0')) <= limit if fr.denominator == 1 else len(decimal_to_string(abs(fr)).replace('.', '').strip('0')) <= limit
+
+
+def _to_string(s: str, v) -> str:
+    """F&O 19.1.2: string form of the value v of type s"""
+    return canonical(s, v)
+
+
+def _check_target_facets(t: str, v, ver: str):
+    """value v is in the value space of the primitive/base class of t: enforce t's own facets"""
+    if t in INTEGER_TYPES:
+        if not in_int_bounds(t, v):
+            raise CastError('value')
+        return v
+    if t == 'dateTimeStamp':
+        if ver == '1.0':
+            raise NoVerdict('dateTimeStamp in XSD 1.0')
+        if v[8] is None:
+            raise CastError('value')
+        return v
+    return v
+
+
+def cast_ref(s: str, v, t: str, ver: str = '1.0'):
+    """expected value (in the value mapping of Part 2) of `v cast as xs:t` for v of type s.
+    Raises CastError (the cast must fail) or NoVerdict."""
+    cs, ct = _CLS[s], _CLS[t]
+    if t == 'QName' and cs != 'QN':
+        raise NoVerdict('cast to QName depends on the XPath version and the static namespaces')
+    if ct in ('uA', 'str'):
+        text = v if cs in ('uA', 'str') else _to_string(s, v)
+        if t in ('string', 'untypedAtomic'):
+            return text
+        try:
+            return parse(t, text, ver)
+        except LexError:
+            raise CastError('value') from None
+    if cs in ('uA', 'str'):
+        try:
+            return parse(t, v, ver)
+        except LexError:
+            raise CastError('value') from None
+    if ct not in _ALLOWED[cs]:
+        raise CastError('forbidden')
+    # ---- numeric targets
+    if ct in _NUM:
+        if cs == 'bool':
+            x = 1 if v else 0
+            r = float(x) if ct in ('flt', 'dbl') else x
+            return _check_target_facets(t, r, ver)
+        if ct == 'dbl':
+            if cs in ('flt', 'dbl'):
+                return float(v)
+            return _fraction_to_double(Fraction(v))
+        if ct == 'flt':
+            if cs in ('flt', 'dbl'):
+                return to_float32(v)
+            fr = Fraction(v)
+            if fr == 0:
+                return 0.0
+            r = _fraction_to_float32(abs(fr))
+            return -r if fr < 0 else r
+        # decimal / integer targets
+        if cs in ('flt', 'dbl'):
+            if math.isnan(v) or math.isinf(v):
+                raise CastError('value')            # FOCA0002
+            fr = Fraction(v)
+        else:
+            fr = Fraction(v)
+        if ct == 'dec':
+            if cs in ('flt', 'dbl') and not _fraction_is_short(fr):
+                raise NoVerdict('decimal precision beyond 18 digits is implementation-defined')
+            return fr
+        n = fr.numerator // fr.denominator if fr >= 0 else -((-fr.numerator) // fr.denominator)    # truncate towards zero
+        return _check_target_facets(t, n, ver)
+    if ct == 'bool':
+        if cs == 'bool':
+            return v
+        if cs in ('flt', 'dbl'):
+            return not (v == 0 or math.isnan(v))
+        return Fraction(v) != 0
+    # ---- durations
+    if ct in ('dur', 'yMD', 'dTD'):
+        _, months, secs = v
+        if ct == 'dur':
+            return ('D', months, secs)
+        if ct == 'yMD':
+            return ('D', months, Fraction(0))
+        return ('D', 0, secs)
+    # ---- date / time family
+    if ct in ('dT', 'tim', 'dat', 'gYM', 'gYr', 'gMD', 'gDay', 'gMon'):
+        _, kind, y, mo, d, h, mi, sec, tz = v
+        if ct == 'dT':
+            if cs == 'dat':
+                r = ('T', 'dateTime', y, mo, d, 0, 0, Fraction(0), tz)
+            else:
+                r = ('T', 'dateTime', y, mo, d, h, mi, sec, tz)
+            return _check_target_facets(t, r, ver)
+        if ct == cs:
+            return v
+        tk = {'tim': 'time', 'dat': 'date', 'gYM': 'gYearMonth', 'gYr': 'gYear', 'gMD': 'gMonthDay', 'gDay': 'gDay', 'gMon': 'gMonth'}[ct]
+        if ct == 'tim':
+            return ('T', tk, None, None, None, h, mi, sec, tz)
+        keep_y = y if ct in ('dat', 'gYM', 'gYr') else None
+        keep_m = mo if ct in ('dat', 'gYM', 'gMD', 'gMon') else None
+        keep_d = d if ct in ('dat', 'gMD', 'gDay') else None
+        return ('T', tk, keep_y, keep_m, keep_d, 0, 0, Fraction(0), tz)
+    if ct in ('b64', 'hxB'):
+        return v
+    if ct in ('aURI', 'QN'):
+        return v
+    raise ValueError((s, t))
+
+
+def _fraction_to_double(fr: Fraction) -> float:
+    if fr == 0:
+        return 0.0
+    try:
+        return fr.numerator / fr.denominator
+    except OverflowError:
+        return math.inf if fr > 0 else -math.inf
+
+
+def self_test_cast():
+    F = Fraction
+    assert cast_allowed('double', 'boolean') and not cast_allowed('boolean', 'date') and cast_allowed('date', 'gDay')
+    assert not cast_allowed('time', 'dateTime') and not cast_allowed('dateTime', 'duration') and cast_allowed('byte', 'float')
+    assert cast_allowed('hexBinary', 'base64Binary') and not cast_allowed('hexBinary', 'integer') and cast_allowed('anyURI', 'string')
+    assert not cast_allowed('anyURI', 'integer') and cast_allowed('yearMonthDuration', 'dayTimeDuration') and not cast_allowed('gYear', 'gYearMonth')
+    assert cast_ref('double', 1e-7, 'string') == '1.0E-7' and cast_ref('decimal', F(5, 2), 'integer') == 2 and cast_ref('decimal', F(-5, 2), 'integer') == -2
+    assert cast_ref('double', -0.0, 'boolean') is False and cast_ref('double', math.nan, 'boolean') is False and cast_ref('integer', 2, 'boolean') is True
+    assert cast_ref('boolean', True, 'double') == 1.0 and cast_ref('boolean', False, 'string') == 'false' and cast_ref('boolean', True, 'byte') == 1
+    assert cast_ref('integer', 16777217, 'float') == 16777216.0 and cast_ref('double', 1e300, 'float') == math.inf
+    assert cast_ref('hexBinary', b'\x01\x02', 'base64Binary') == b'\x01\x02' and cast_ref('hexBinary', b'\x01', 'string') == '01'
+    assert cast_ref('dateTime', parse('dateTime', '2000-01-02T03:04:05.5+01:00'), 'date') == parse('date', '2000-01-02+01:00')
+    assert cast_ref('dateTime', parse('dateTime', '2000-01-02T03:04:05Z'), 'time') == parse('time', '03:04:05Z')
+    assert cast_ref('dateTime', parse('dateTime', '2000-01-02T03:04:05Z'), 'gMonthDay') == parse('gMonthDay', '--01-02Z')
+    assert cast_ref('date', parse('date', '2000-01-02'), 'dateTime') == parse('dateTime', '2000-01-02T00:00:00')
+    assert cast_ref('duration', parse('duration', 'P1Y2M3DT4H'), 'yearMonthDuration') == ('D', 14, 0)
+    assert cast_ref('duration', parse('duration', 'P1Y2M3DT4H'), 'dayTimeDuration') == ('D', 0, 3 * 86400 + 4 * 3600)
+    assert cast_ref('yearMonthDuration', ('D', 14, F(0)), 'dayTimeDuration') == ('D', 0, 0)
+    assert cast_ref('string', ' 12 ', 'integer') == 12 and cast_ref('untypedAtomic', '1e0', 'double') == 1.0
+    assert cast_ref('integer', 5, 'token') == '5' and cast_ref('string', ' a  b ', 'token') == 'a b'
+    for bad in (lambda: cast_ref('double', math.inf, 'integer'), lambda: cast_ref('integer', 128, 'byte'), lambda: cast_ref('string', 'x', 'integer'),
+                lambda: cast_ref('boolean', True, 'date'), lambda: cast_ref('string', 'a b', 'NCName'), lambda: cast_ref('double', 300.0, 'unsignedByte')):
+        try:
+            bad()
+            raise AssertionError('CastError expected')
+        except CastError:
+            pass
+    try:
+        cast_ref('double', 0.1, 'decimal')
+        raise AssertionError('NoVerdict expected')
+    except NoVerdict:
+        pass
+    assert cast_ref('double', 0.5, 'decimal') == F(1, 2) and cast_ref('float', to_float32(0.1), 'double') == to_float32(0.1)
